@@ -38,7 +38,7 @@ CFGS = {
     "MCDataF7": mc(DATA, Bugs='{"F7"}'),                                                   # expected to violate C05 (pre-fix model)
     # an acknowledgement caught inside the consumer's TrackOffset (between the position store and the dirty mark) while saves go on
     "MCAckQ": mc(DATA, AckSplit="TRUE", MaxAcks="1", MaxSaves="2", MaxCrash="0", MaxGen="1"),
-    "MCAck": mc(DATA, AckSplit="TRUE", Savers='{"p", "c"}', MaxAcks="2", MaxSaves="2", MaxCrash="0", MaxGen="1"),
+    "MCAck": mc(DATA, AckSplit="TRUE", Savers='{"p", "c"}', MaxAcks="1", MaxSaves="2", MaxCrash="0", MaxGen="1"),
     "SimAck": simc(DATA, 48, AckSplit="TRUE", Savers='{"p", "c"}', MaxSaves="4", MaxAcks="4"),
     "WitAck": wit(DATA, AckSplit="TRUE", MaxCrash="0", MaxSaves="2", MaxAcks="2", MaxGen="1", FailSaves="FALSE"),
     "SimData": simc(DATA, 48, Savers='{"p", "c"}', MaxSaves="4", MaxAcks="4"),
